@@ -90,7 +90,18 @@ def make_data(scn):
     if scn.get('classes') is None and scn['kind'] in kinds.CLASS_BASED:
         d[first_accepted_row(scn), :] = pool.max()
     data = d.reshape((NMAX,) + tuple(scn['wshape']))
-    return traces, data
+    return relayout(traces, scn.get('tlayout', 'C')), relayout(data, scn.get('dlayout', 'C'))
+
+
+def relayout(a, layout):
+    """Same values, another memory layout: C-contiguous, Fortran-contiguous, or a strided view of a wider buffer."""
+    if layout == 'F':
+        return np.asfortranarray(a)
+    if layout == 'strided' and a.ndim == 2:
+        w = np.zeros((a.shape[0], 2 * a.shape[1]), dtype=a.dtype)
+        w[:, ::2] = a
+        return w[:, ::2]
+    return np.ascontiguousarray(a)
 
 
 def exact_ok(scn):
@@ -237,6 +248,20 @@ def gen_history(seed, tier, prop, kinds_allowed):
     elif kind in kinds.CLASS_BASED or kind in ('tstatic', 'tdpa'):
         opts = [None, None, None, 'uint16', 'uint32', 'int16', 'int32'] + (['int8'] if pmax <= 127 else [])
         scn['ddtype'] = dd.choice(opts)
+    # memory layout of the arrays handed to update(): row slices of a Fortran-ordered or strided base array are non-contiguous, a one-batch
+    # array is F-contiguous - code that flattens / views by layout ('A'/'K' order, ravel, frombuffer) depends on the split then.
+    # numba-backed kinds compile one more signature per layout, so they only get them in the thorough tier (except >= 3-D data, which
+    # base.update reshapes into a fresh C array before any kernel sees it).
+    lay = rng.stream(seed, 'layout')
+    u1, u2 = lay.random(), lay.random()
+    if not numba_kind or thorough:
+        p = 0.2 if not numba_kind else 0.04
+        if u1 < p:
+            scn['tlayout'] = 'F' if u1 < p / 2 else 'strided'
+    if len(scn['wshape']) >= 2 or not numba_kind or thorough:
+        p = 0.25 if (len(scn['wshape']) >= 2 or not numba_kind) else 0.04
+        if u2 < p and kind not in ('ttacc',):
+            scn['dlayout'] = 'F'
     # keep the exact regime exact: lower amplitude / rows until the bound holds
     batches, shape = _partition(r, n)
     scn['ops'] = [['u', a, b] for a, b in batches]
@@ -564,7 +589,7 @@ def _twin_one_batch(scn, traces, data, accepted):
     numba.set_num_threads(1)
     try:
         with env.clock(env.SimClock()), env.memory(env.SimMemory()):
-            tw.update(np.ascontiguousarray(traces[idx]), np.ascontiguousarray(data[idx]))
+            tw.update(relayout(traces[idx], scn.get('tlayout', 'C')), relayout(data[idx], scn.get('dlayout', 'C')))
             return tw, tw.compute()
     finally:
         numba.set_num_threads(saved)
@@ -903,6 +928,11 @@ def candidates(scn):
         c = copy.deepcopy(scn)
         c['offset'] = 0
         yield c
+    for key in ('tlayout', 'dlayout', 'ddtype'):
+        if scn.get(key):
+            c = copy.deepcopy(scn)
+            c.pop(key)
+            yield c
     if scn['regime'] == 'exact' and scn['amp'] > 1:
         c = copy.deepcopy(scn)
         c['amp'] = 1
@@ -911,7 +941,7 @@ def candidates(scn):
 
 def summary(scn):
     """Compact written-out form of a case for the evidence file."""
-    s = {k: scn[k] for k in ('kind', 'precision', 'tdtype', 'regime', 'm', 'wshape', 'classes') if k in scn}
+    s = {k: scn[k] for k in ('kind', 'precision', 'tdtype', 'ddtype', 'tlayout', 'dlayout', 'regime', 'm', 'wshape', 'classes') if k in scn}
     s['ops'] = [o if o[0] != 'u' else ['u', o[2] - o[1]] for o in scn['ops']]
     if 'clock' in scn:
         s['clock'] = scn['clock'].get('model')
